@@ -133,6 +133,10 @@ type Try struct {
 type Return struct{ E Expr }
 type Comment struct{ S string }
 
+// TrimmedText is whitespace the printer emits but that a trim marker of the neighbouring action removes:
+// it counts for line numbers and contributes nothing to the output.
+type TrimmedText struct{ S string }
+
 // API is a call of a harness jet.Func that drives the Go-side Runtime API:
 // {{ rtLet("x", v) }}, {{ rtSet("x", v) }}, {{ rtSetOrLet("x", v) }}, {{ rtLetGlobal("x", v) }},
 // {{ rtResolve("x") }}, {{ rtMustResolve("x") }}, {{ rtContext() }}, {{ rtYield("block", ctx) }}.
@@ -161,6 +165,7 @@ func (*Include) isStmt()      {}
 func (*Try) isStmt()          {}
 func (*Return) isStmt()       {}
 func (*Comment) isStmt()      {}
+func (*TrimmedText) isStmt()  {}
 func (*FailStmt) isStmt()     {}
 func (*API) isStmt()          {}
 
@@ -295,6 +300,8 @@ func (p *Printer) stmt(s Stmt) {
 		p.w(s.S)
 	case *Comment:
 		p.w("{*" + s.S + "*}")
+	case *TrimmedText:
+		p.w(s.S)
 	case *API:
 		done := p.open(s)
 		switch s.Op {
